@@ -142,6 +142,7 @@ func (R *Repository) tryUpdateSignatureCertFromChain(entry *Entry, chains *core.
 	}
 }
 
+// loadCRL must be called with the entry write lock held
 func (R *Repository) loadCRL(entry *Entry, chains *core.CertificateChains) (err error) {
 	R.logger.Debug("loading crl", zap.String("crl", entry.CRLLoader.GetDescription()))
 	tempFileName, err := R.createTempFile()
@@ -317,7 +318,13 @@ func (R *Repository) updateCRL(identifier string) error {
 	if entry != nil {
 		R.logger.Debug("updating crl from " + entry.CRLLoader.GetDescription())
 		if R.isEntryLoaded(entry) == false {
-			return R.loadCRL(entry, entry.Chains)
+			entry.entryLock.Lock()
+			defer entry.entryLock.Unlock()
+			//check again after getting write lock if entry is still not loaded
+			if entry.Loaded == false {
+				return R.loadCRL(entry, entry.Chains)
+			}
+			return nil
 		} else {
 			return R.updateCrlEntry(entry, nil)
 		}
